@@ -106,19 +106,18 @@ Proof.
   cbn [repeat concat]. rewrite IH. reflexivity.
 Qed.
 
-Lemma src_LeftPadHex_eq s total : small s -> (- 4611686018427387904 < total < 4611686018427387904)%Z ->
+Lemma src_LeftPadHex_eq s total : small s -> (total < 4611686018427387904)%Z ->
   Src.LeftPadHex s total = lift_p (Utils.left_pad_hex s total).
 Proof.
   intros Hs Ht. unfold Src.LeftPadHex, Utils.left_pad_hex, small, zlen in *.
+  change (Z.leb total 0) with (total <=? 0)%Z. destruct (total <=? 0)%Z eqn:E0; [reflexivity|].
   destruct (Z.leb total (Z.of_nat (length s))) eqn:E.
   - rewrite wrap_int64_small by lia. unfold slice, zlen.
-    destruct (total <? 0)%Z eqn:En.
-    + destruct (Z.of_nat (length s) <? Z.of_nat (length s) - total)%Z eqn:E2; [|lia]. rewrite orb_true_r. reflexivity.
-    + destruct (Z.of_nat (length s) - total <? 0)%Z eqn:E1; [lia|].
-      destruct (Z.of_nat (length s) <? Z.of_nat (length s) - total)%Z eqn:E2; [lia|].
-      rewrite Z.ltb_irrefl. cbn [orb rbind lift_p].
-      replace (Z.to_nat (Z.of_nat (length s) - total)) with (length s - Z.to_nat total)%nat by lia.
-      f_equal. apply firstn_all2. rewrite skipn_length. lia.
+    destruct (Z.of_nat (length s) - total <? 0)%Z eqn:E1; [lia|].
+    destruct (Z.of_nat (length s) <? Z.of_nat (length s) - total)%Z eqn:E2; [lia|].
+    rewrite Z.ltb_irrefl. cbn [orb rbind lift_p].
+    replace (Z.to_nat (Z.of_nat (length s) - total)) with (length s - Z.to_nat total)%nat by lia.
+    f_equal. apply firstn_all2. rewrite skipn_length. lia.
   - rewrite wrap_int64_small by lia. change (s2b "0"%string) with [48]. rewrite str_repeat_char by lia. cbn [rbind lift_p].
     replace (Z.to_nat (total - Z.of_nat (length s))) with (Z.to_nat total - length s)%nat by lia. reflexivity.
 Qed.
@@ -130,7 +129,7 @@ Proof.
   rewrite (wrap_int64_small (size * 2)) by lia.
   rewrite src_LeftPadHex_eq by (assumption || lia).
   assert (Hne : forall e, Utils.left_pad_hex s (size * 2) <> Err e).
-  { intros e. unfold Utils.left_pad_hex. destruct (size * 2 <=? zlen s)%Z; [destruct (size * 2 <? 0)%Z|]; discriminate. }
+  { intros e. unfold Utils.left_pad_hex. destruct (size * 2 <=? 0)%Z; [discriminate|]. destruct (size * 2 <=? zlen s)%Z; discriminate. }
   destruct (Utils.left_pad_hex s (size * 2)) as [padded|e|]; [|exfalso; apply (Hne e); reflexivity|reflexivity].
   cbn [lift_p rbind]. unfold Src.hex_decode_go. destruct (hex_decode padded); reflexivity.
 Qed.
